@@ -30,7 +30,16 @@ func NewXText(value string) *XText {
 
 // Describe returns a representation of this type for error messages
 func (x *XText) Describe() string {
-	return strconv.Quote(x.Native())
+	quoted := strconv.Quote(x.Native())
+
+	// the lexer takes a backslash followed by a quote as an escaped quote, so if the text ends with a backslash and there's
+	// another quote somewhere after this literal, it won't see our closing quote as such.. so write a final backslash as a
+	// unicode escape instead of \\
+	if strings.HasSuffix(x.Native(), `\`) {
+		quoted = strings.TrimSuffix(quoted, `\\"`) + `\u005c"`
+	}
+
+	return quoted
 }
 
 // Truthy determines truthiness for this type
